@@ -34,7 +34,7 @@ ASSUMPTIONS = [
     "a directive placed before ##sequence-region by the independent writer does not itself begin with '##sequence-region'",
 ]
 PARTIAL = [
-    "KNOWN FINDING C14-hash-seqid (provisional): the quantifier says 'seqids free of white space'; a seqid that begins with '#' (or, for an "
+    "KNOWN FINDING C14-hash-seqid (recorded, not repaired): the quantifier says 'seqids free of white space'; a seqid that begins with '#' (or, for an "
     "empty seqid, a Locus.Name that does) is inside it, but gff.Build writes it unescaped and gff.Parse skips the line as a comment "
     "(since fdf6b17 for '#…', before only for '##…'): 1 feature in, 0 out. parse_build / coords_build are proved under wfBuild, which "
     "excludes exactly this class; hash_seqid_witness is the kernel-checked counterexample over wfBuildQ; such cases are judged (kf class)",
